@@ -8,8 +8,11 @@ SPEC = {
                 n_quick=8, n_thorough=120, shards_quick=1, shards_thorough=4, timeout_quick=600, timeout_thorough=1500)],
     "gen": ["Policy", "RPCMethods"],
     # everything that depends on Gen/ is recompiled at every run
-    "force": ["Model/C07_Tables.v", "Model/C07_Check.v", "Proofs/C07_Tables.v"],
+    "force": ["Model/C07_Tables.v", "Model/C07_CheckSpec.v", "Model/C07_Check.v", "Proofs/C07_Tables.v"],
     "diag": True,
+    # when a Gen table cannot be regenerated Model/C07_Check.v does not compile: the cases are still evaluated against the
+    # Gen-independent part (code 2 on the specification tables, trust observations)
+    "check_fallback": {"primary": "Model.C07_Check", "fallback": "Model.C07_CheckSpec"},
     "exhaustive": True,
     "rule": "exhaustive grid: every endpoint found by reflection on the five registered service objects (50) x caller {the peer itself, "
             "remote B, remote C} x trust configuration {raft; crdt list=[B]; crdt empty list; crdt '*'; after Trust(C); after Distrust(B)} "
